@@ -10,7 +10,7 @@ From ClapModel Require Import ParseProofs.Actions ParseProofs.ActionsLoop ParseP
 From ClapModel Require Import Derive.DeriveCmd Derive.DeriveArgs Derive.DeriveParse Derive.DeriveUpdate Derive.DeriveAccept Derive.DeriveParseEx.
 From ClapModel Require Import Parse.Validator ParseProofs.Relations ParseProofs.ValidateTotal Derive.DerivePost Derive.DerivePostEx.
 From ClapModel Require Import ParseProofs.Dispatch Derive.LoopInv Derive.DeriveFlat Derive.DeriveTotal Derive.DeriveTotalEx.
-From ClapModel Require Import ParseProofs.KindSound Derive.DeriveUpdateLine Derive.DeriveUpdateLineEx Derive.DeriveDec.
+From ClapModel Require Import ParseProofs.KindSound Derive.DeriveUpdateLine Derive.DeriveUpdateLineEx Derive.DeriveDec Derive.DeriveKeys.
 From Coq Require Import ZArith List.
 Import ListNotations.
 Open Scope N_scope.
@@ -592,3 +592,52 @@ Theorem C15_roundtrip_scalars :
   /\ (forall e ic x, names_disjoint ic e -> Forall (fun v => utf8_valid (pv_name (vv_pv v)) = true) e -> srt (TEnum e) ic x).
 Proof. exact scalars_roundtrip_all. Qed.
 Print Assumptions C15_roundtrip_scalars.
+
+(** * Round 3: the generated command with positionals and flattened structs lies in C02's class (Derive/DeriveKeys.v) *)
+
+(** THE BUILT ARGUMENTS, POSITIONALS NUMBERED IN DECLARATION ORDER: [c_args] of the built command is [Arg::_build] of the
+    generated argument of every leaf field ([annot]: the k-th positional field, through the flatten nesting, gets index k),
+    then the help flag. *)
+Theorem C15_generated_args_all : forall d bin, flat_nodes (d_nodes d) = true ->
+  c_args (built d bin) = map built_of (annot 1 (leaves (d_nodes d))) ++ [hb].
+Proof. exact builtk_args. Qed.
+Print Assumptions C15_generated_args_all.
+
+(** KEY MAP: a [--long] / [-s] of an option field resolves to the field's argument, index k to the k-th positional field. *)
+Theorem C15_generated_keys_all : forall d bin, flat_nodes (d_nodes d) = true ->
+  Forall opt_kind_ok (leaves (d_nodes d)) ->
+  NoDup (map f_kind (filter (fun f => negb (f_is_positional f)) (leaves (d_nodes d)))) ->
+  (forall f l, In f (leaves (d_nodes d)) -> f_kind f = KLong l -> get_long (built d bin) l = Some (bf f))
+  /\ (forall f s, In f (leaves (d_nodes d)) -> f_kind f = KShort s -> get_short (built d bin) s = Some (bf f))
+  /\ (forall k f, In (Some k, f) (annot 1 (leaves (d_nodes d))) -> get_pos (built d bin) k = Some (built_of (Some k, f))).
+Proof.
+  intros d bin H1 H2 H3. split; [intros f l; exact (lookup_long_all d bin H1 H2 H3 f l)|].
+  split; [intros f s0; exact (lookup_short_all d bin H1 H2 H3 f s0)|intros k f; exact (lookup_pos_all d bin H1 k f)].
+Qed.
+Print Assumptions C15_generated_keys_all.
+
+(** THE GENERATED COMMAND LIES IN C02'S CLASS, positionals and flattened structs included: conventional ([conv]: clap's
+    assertions hold, no argument with hyphen values / terminator / last / trailing-var-arg, the only multi-valued positional
+    is the last one), no overrides.  (Generalises [C15_generated_command_conv].) *)
+Theorem C15_generated_command_conv_all : forall d bin, flat_nodes (d_nodes d) = true ->
+  valid (with_bin (derive_cmd d) bin) = true ->
+  (forall k f, In (Some k, f) (annot 1 (leaves (d_nodes d))) -> a_is_multiple (bf f) = true ->
+     k = N.of_nat (length (filter f_is_positional (leaves (d_nodes d))))) ->
+  conv (built d bin) = true /\ no_overrides (built d bin) = true.
+Proof. intros d bin H1 H2 H3. split; [exact (built_conv_all d bin H1 H2 H3)|exact (built_no_overrides_all d bin H1)]. Qed.
+Print Assumptions C15_generated_command_conv_all.
+
+(** Non-vacuity: [{ vv: bool, p: u8 (positional), x: String (-x), #[flatten] { rest: Vec<String> (positional) } }]: the
+    hypotheses hold; index 1 is [p], index 2 is [rest] inside the flattened struct. *)
+Theorem C15_generated_keys_all_nonvacuous :
+  flat_nodes (d_nodes KeysEx.d) = true /\ Forall opt_kind_ok (leaves (d_nodes KeysEx.d))
+  /\ NoDup (map f_kind (filter (fun f => negb (f_is_positional f)) (leaves (d_nodes KeysEx.d))))
+  /\ valid (with_bin (derive_cmd KeysEx.d) b_prog) = true
+  /\ (forall k f, In (Some k, f) (annot 1 (leaves (d_nodes KeysEx.d))) -> a_is_multiple (bf f) = true ->
+        k = N.of_nat (length (filter f_is_positional (leaves (d_nodes KeysEx.d)))))
+  /\ annot 1 (leaves (d_nodes KeysEx.d)) = [(None, KeysEx.fl); (Some 1, KeysEx.fp); (None, KeysEx.fx); (Some 2, KeysEx.fr)].
+Proof.
+  split; [exact KeysEx.ex_flat|]. split; [exact KeysEx.ex_kinds|]. split; [exact KeysEx.ex_nodup|].
+  split; [exact KeysEx.ex_valid|]. split; [exact KeysEx.ex_multi_last|exact KeysEx.ex_annot].
+Qed.
+Print Assumptions C15_generated_keys_all_nonvacuous.
